@@ -23,6 +23,7 @@ Expr forms (tuples, hashable):
   ('loop', header, root)             value carried around a loop
   ('unk', why)
 """
+import re
 from .cfg import CFG
 
 # callee key -> how the returned reference relates to argument 0
@@ -589,7 +590,7 @@ class _Pass:
                     if sub is not None:
                         res = sub
                         proj = 'user'
-                        if not str(self.an.facts.fns[callee].get('output', '')).startswith('&mut'):
+                        if not re.match(r"^&('\w+ )?mut ", str(self.an.facts.fns[callee].get('output', ''))):
                             res = mk_constref(self.load(st, res))
             if callee == 'core::option::Option::<T>::take' and args and args[0][0] in ('ref', 'param') and not proj:
                 # take(): yields the old value and leaves None behind
